@@ -22,7 +22,7 @@ Init == \E s \in Starts : TraceInit(s) /\ st = F!Empty
 ChainOK(obs, exp) == /\ Len(obs) = Len(exp)
                      /\ \A i \in 1..Len(exp) : /\ obs[i][1] = Cfg.cmap[exp[i][1] + 1]
                                                /\ (obs[i][2] = -1 \/ exp[i][2] = F!Unspecified \/ obs[i][2] = exp[i][2])
-Copying == {"clone", "copyctor", "copyassign", "pwrap", "pcopy"}
+Copying == {"clone", "copyctor", "cloneinner", "copyassign", "pwrap", "pcopy"}
 Op == /\ IsEvent("op")
       /\ LET o == [op |-> Ev.op, a |-> Ev.a, b |-> Ev.b, c |-> Ev.c] IN
          \E s2 \in F!Outcomes(st, o) : LET ob == F!Observe(s2) IN
